@@ -10,6 +10,7 @@ package query
 
 import (
 	"fmt"
+	"slices"
 	"math/rand"
 	"os"
 	"path/filepath"
@@ -23,6 +24,10 @@ import (
 	"github.com/apmckinlay/gsuneido/db19/index"
 	lib "github.com/apmckinlay/gsuneido/util/zzverif"
 )
+
+// a table was renamed to the name of a dropped table in this history (discriminates the
+// signature of a checksum mismatch: RenameTable copying `created`, finding 45)
+var c04renamedOverDropped bool
 
 var c04tables = []string{"ta", "tb", "tc"}
 var c04cols = []string{"a", "b", "c", "d"}
@@ -68,7 +73,7 @@ func c04snapshot(db *db19.Database) (schema, views, data, info string) {
 // c04quiesce waits until the background merger has applied every pending merge, so that an
 // index build never races a merge (that race is finding 15, owned by C06/C16, and would make
 // this suite timing dependent)
-func c04quiesce(db *db19.Database) {
+func c04quiesce(db *db19.Database, tr *lib.Trace) {
 	for i := 0; i < 5000; i++ {
 		busy := false
 		rt := db.NewReadTran()
@@ -84,6 +89,7 @@ func c04quiesce(db *db19.Database) {
 		}
 		time.Sleep(time.Millisecond)
 	}
+	tr.Count("quiesce.timeout")
 }
 
 func c04tableNames(schema string) map[string]bool {
@@ -94,6 +100,20 @@ func c04tableNames(schema string) map[string]bool {
 		}
 	}
 	return m
+}
+
+// signature prefix and the generator styles in use (C15's `meta` suite runs the metadata-focused
+// styles of the same generator: schema/info items through the real Meta operations)
+var c04prefix = "c04"
+var c04styles = []int{0, 1, 2, 3, 4, 5}
+
+// TestVerifC15Meta is C15's second suite (db19/meta level through the real admin operations):
+// schema and info chains with independently ticking clocks (view-only and data-only persists),
+// metadata-only changes, several sessions with drops right after a reopen, renames over dropped names.
+func TestVerifC15Meta(t *testing.T) {
+	c04prefix = "c15meta"
+	c04styles = []int{1, 2, 3, 2, 3, 0}
+	TestVerifC04Reopen(t)
 }
 
 func TestVerifC04Reopen(t *testing.T) {
@@ -123,7 +143,7 @@ func c04history(tr *lib.Trace, r *rand.Rand, hno int, path string) {
 	defer func() { lib.Catch(func() { db.Close() }) }()
 	var hist []string
 	fail := func(sig, what string) {
-		tr.Fail(sig, fmt.Sprintf("%s; history %d: %s", what, hno, strings.Join(hist, "; ")))
+		tr.Fail(strings.Replace(sig, "c04-", c04prefix+"-", 1), fmt.Sprintf("%s; history %d: %s", what, hno, strings.Join(hist, "; ")))
 	}
 	rcols := func(n int) string {
 		p := r.Perm(len(c04cols))
@@ -133,10 +153,45 @@ func c04history(tr *lib.Trace, r *rand.Rand, hno int, path string) {
 		}
 		return strings.Join(out, ",")
 	}
-	style := r.Intn(4) // 0: few tables/views, drop-heavy; others: general
+	// 0: few tables/views, drop-heavy; 1: schema clock ahead (views + persists);
+	// 2: info clock ahead (data-only persist cycles), then metadata-only changes;
+	// 3: many sessions, admin requests right after a reopen (before any data write); others: general
+	style := c04styles[r.Intn(len(c04styles))]
+	tr.Count(fmt.Sprintf("history.style=%d", style))
 	nsteps := 25 + r.Intn(40)
 	nview := 0
 	dropped := map[string]bool{}
+	c04renamedOverDropped = false
+	var script []string // admin commands queued by a schedule
+	var forced []int // op selectors queued by a schedule (e.g. drop, persist, reopen right after a reopen)
+	existing := func() []string {
+		var out []string
+		for _, ts := range db.NewReadTran().GetAllSchema() {
+			out = append(out, ts.Table)
+		}
+		sort.Strings(out)
+		return out
+	}
+	allNames := []string{"ta", "tb", "tc", "tar", "tbr", "tcr"}
+	if style == 2 {
+		// data-only persists: only the info chain is written, its clock runs ahead of the schema chain's
+		for _, cmd := range []string{"create ta (a,b,c,d) key(a) index(b)", "create tb (a,b,c,d) key(a)"} {
+			lib.Catch(func() { DoAdmin(db, cmd, nil) })
+			hist = append(hist, cmd)
+		}
+		for i := 2 + r.Intn(5); i > 0; i-- {
+			act := fmt.Sprintf("insert { a: %d, b: %d, c: %d, d: %d } into ta", 100+i, r.Intn(8), r.Intn(8), r.Intn(8))
+			lib.Catch(func() {
+				ut := db.NewUpdateTran()
+				defer ut.Abort()
+				DoAction(nil, ut, act)
+				ut.Complete()
+			})
+			db.Persist()
+			hist = append(hist, act, "persist")
+		}
+		tr.Count("history.info-clock-ahead")
+	}
 	if style == 1 {
 		// views + persists: the schema chain's clock runs ahead of the info chain's
 		for i := 1 + r.Intn(3); i > 0; i-- {
@@ -159,12 +214,46 @@ func c04history(tr *lib.Trace, r *rand.Rand, hno int, path string) {
 		}
 		var cmd string
 		x := r.Intn(100)
+		if len(script) == 0 && r.Intn(16) == 0 {
+			// life cycle of a name: a fresh table is renamed onto the name of a dropped table
+			// (whose tombstone or old entry may be on disk) and is then usually dropped again
+			var dn, free []string
+			ex := existing()
+			for _, n := range allNames {
+				if dropped[n] && !slices.Contains(ex, n) {
+					dn = append(dn, n)
+				} else if !slices.Contains(ex, n) {
+					free = append(free, n)
+				}
+			}
+			if len(dn) > 0 && len(free) > 0 {
+				d, f := dn[r.Intn(len(dn))], free[r.Intn(len(free))]
+				script = []string{fmt.Sprintf("create %s (a,b,c,d) key(a) index(%s)", f, rcols(1)),
+					fmt.Sprintf("rename %s to %s", f, d)}
+				if r.Intn(3) != 0 {
+					script = append(script, "drop "+d)
+				}
+				tr.Count("op.script-rename-onto-dropped")
+			}
+		}
+		if len(script) > 0 {
+			cmd, script = script[0], script[1:]
+			x = 1000
+		}
+		if (style == 2 || style == 3) && r.Intn(2) == 0 {
+			// metadata-only changes (a data write would re-stamp the info entry), persists, reopens
+			x = []int{5, 5, 40, 40, 55, 55, 65, 30, 18}[r.Intn(9)]
+		}
+		if len(forced) > 0 {
+			x, forced = forced[0], forced[1:]
+		}
 		if style == 1 && r.Intn(2) == 0 {
 			// create / persist / drop cycles while the clocks are skewed (finding 12 needs the
 			// schema item's `created` to coincide with the info clock at the drop)
 			x = []int{5, 55, 55, 40, 40}[r.Intn(5)]
 		}
 		switch {
+		case x == 1000: // scripted command
 		case x < 12:
 			cmd = fmt.Sprintf("create %s (a,b,c,d) key(a) index(%s)", tb, rcols(1+r.Intn(2)))
 			if r.Intn(3) == 0 {
@@ -191,14 +280,35 @@ func c04history(tr *lib.Trace, r *rand.Rand, hno int, path string) {
 				cmd = fmt.Sprintf("alter %s rename %sx to %s", tb, c1, c1)
 			}
 		case x < 35:
-			if r.Intn(2) == 0 {
+			switch r.Intn(4) {
+			case 0:
 				cmd = fmt.Sprintf("rename %s to %sr", tb, tb)
-			} else {
+			case 1:
 				cmd = fmt.Sprintf("rename %sr to %s", tb, tb)
+			default:
+				// any existing table to any name, in particular to the name of a dropped table
+				from := allNames[r.Intn(len(allNames))]
+				if ex := existing(); len(ex) > 0 && r.Intn(4) != 0 {
+					from = ex[r.Intn(len(ex))]
+				}
+				to := allNames[r.Intn(len(allNames))]
+				var dn []string
+				for _, n := range allNames {
+					if dropped[n] {
+						dn = append(dn, n)
+					}
+				}
+				if len(dn) > 0 && r.Intn(2) == 0 {
+					to = dn[r.Intn(len(dn))]
+					tr.Count("op.rename-to-dropped-name")
+				}
+				cmd = fmt.Sprintf("rename %s to %s", from, to)
 			}
 		case x < 45 || (style == 0 && x < 55):
 			cmd = "drop " + tb
-			if r.Intn(5) == 0 {
+			if ex := existing(); len(ex) > 0 && r.Intn(3) != 0 {
+				cmd = "drop " + ex[r.Intn(len(ex))]
+			} else if r.Intn(5) == 0 {
 				cmd = "drop " + tb + "r"
 			}
 		case x < 50:
@@ -218,6 +328,12 @@ func c04history(tr *lib.Trace, r *rand.Rand, hno int, path string) {
 		case x < 72: // close / reopen / compare
 			if !c04reopen(tr, &db, path, &hist, fail, dropped) {
 				return
+			}
+			if style == 3 || r.Intn(4) == 0 {
+				// a new session starts with admin requests: the chain clocks are 0 again and every
+				// entry read back has created == 0
+				forced = [][]int{{40, 65}, {40, 55, 65}, {5, 40, 65}, {30, 40, 55, 65}, {40, 40, 65}}[r.Intn(5)]
+				tr.Count("op.admin-first-after-reopen")
 			}
 			continue
 		default: // data
@@ -244,7 +360,7 @@ func c04history(tr *lib.Trace, r *rand.Rand, hno int, path string) {
 			}
 			continue
 		}
-		c04quiesce(db)
+		c04quiesce(db, tr)
 		msg := lib.Catch(func() { DoAdmin(db, cmd, nil) })
 		kind := strings.SplitN(cmd, " ", 2)[0]
 		if kind == "alter" {
@@ -255,9 +371,14 @@ func c04history(tr *lib.Trace, r *rand.Rand, hno int, path string) {
 			tr.Count("admin.ok." + kind)
 			if kind == "drop" {
 				dropped[strings.Fields(cmd)[1]] = true
-			} else if kind == "create" || kind == "rename" {
+			} else if kind == "create" {
+				delete(dropped, strings.Fields(cmd)[1])
+			} else if kind == "rename" {
 				f := strings.Fields(cmd)
-				delete(dropped, f[1])
+				if dropped[f[len(f)-1]] {
+					c04renamedOverDropped = true
+				}
+				dropped[f[1]] = true // the old name is gone
 				delete(dropped, f[len(f)-1])
 			} else if kind == "ensure" {
 				delete(dropped, strings.Fields(cmd)[1])
@@ -267,6 +388,13 @@ func c04history(tr *lib.Trace, r *rand.Rand, hno int, path string) {
 		}
 	}
 	c04reopen(tr, &db, path, &hist, fail, dropped)
+}
+
+func c04cksumSig() string {
+	if c04renamedOverDropped {
+		return "c04-f45-rename-over-dropped-cksum"
+	}
+	return "c04-f12-cksum-mismatch"
 }
 
 func c04reopen(tr *lib.Trace, pdb **db19.Database, path string, hist *[]string,
@@ -281,7 +409,7 @@ func c04reopen(tr *lib.Trace, pdb **db19.Database, path string, hist *[]string,
 	}
 	if err := db19.CheckDatabase(path, true); err != nil {
 		if strings.Contains(err.Error(), "metadata checksum mismatch") {
-			fail("c04-f12-cksum-mismatch", "CheckDatabase after a clean close: "+err.Error())
+			fail(c04cksumSig(), "CheckDatabase after a clean close: "+err.Error())
 		} else {
 			fail("c04-check-fail", "CheckDatabase after a clean close: "+err.Error())
 		}
@@ -290,7 +418,7 @@ func c04reopen(tr *lib.Trace, pdb **db19.Database, path string, hist *[]string,
 	db2, err := db19.OpenDatabase(path)
 	if err != nil {
 		if strings.Contains(err.Error(), "metadata checksum mismatch") {
-			fail("c04-f12-cksum-mismatch", "OpenDatabase after a clean close: "+err.Error())
+			fail(c04cksumSig(), "OpenDatabase after a clean close: "+err.Error())
 		} else {
 			fail("c04-reopen-fail", "OpenDatabase after a clean close: "+err.Error())
 		}
@@ -299,7 +427,7 @@ func c04reopen(tr *lib.Trace, pdb **db19.Database, path string, hist *[]string,
 	db19.StartConcur(db2, time.Hour)
 	*pdb = db2
 	s2, v2, d2, i2 := c04snapshot(db2)
-	tr.Q("snapshot "+fmt.Sprint(len(s1)), fmt.Sprint(len(s2))) // not replayed (no driver); counts as an evaluation
+	tr.Count("reopen.compared")
 	if s1 != s2 {
 		before, after := c04tableNames(s1), c04tableNames(s2)
 		for tb := range after {
